@@ -69,6 +69,7 @@ func cmdCheck(args []string) (code int) {
 	verbose := fs.Bool("v", false, "print every obligation")
 	noEvidence := fs.Bool("no-evidence", false, "do not write evidence files (used by the self-test on scratch copies)")
 	only := fs.String("rule", "", "run only this rule of the property (diagnosis)")
+	cfgs := fs.String("configs", "", "diagnosis: analyse only these build configurations, separated by ';' (e.g. \"poll_opt;GOOS=darwin\"); implies no self-test")
 	fs.Parse(args)
 	if *tier == "" {
 		*tier = os.Getenv("VERIF_TIER")
@@ -95,6 +96,10 @@ func cmdCheck(args []string) (code int) {
 	configs := []string{""}
 	if *tier == "thorough" {
 		configs = append(configs, "poll_opt", "GOOS=darwin", "GOOS=darwin,poll_opt")
+	}
+	if *cfgs != "" {
+		configs = strings.Split(*cfgs, ";")
+		*tier = "quick"
 	}
 	res := &runResult{Property: *prop, Tier: *tier, Start: start, Extra: map[string]interface{}{}}
 	funcs := map[string]bool{}
